@@ -161,6 +161,13 @@ attribute [simp] After.isFinish.eq_1 After.isFinish.eq_2
 @[simp] theorem After.pc_eq_exited (k : After M E) : (k.pc = OPc.exited) ↔ k.isFinish = true := by cases k <;> simp
 @[simp] theorem After.pc_sentPhase (k : After M E) : k.pc.sentPhase = k.isFinish := by cases k <;> rfl
 
+@[simp] theorem MPc.carry_streamPending (um : Option M) : (MPc.streamPending um : MPc M E).carry = um.toList := by
+  cases um <;> rfl
+theorem MPc.carry_of_not_pre (m : MPc M E) (h : m.pre = false) : m.carry = [] := by
+  cases m <;> simp_all
+theorem MPc.sentPhase_of_not_pre (m : MPc M E) (h : m.pre = false) : m.sentPhase = true := by
+  cases m <;> simp_all
+
 /-- Structural invariant: who can be where. -/
 structure SInv (p : Params) (s : State M E) : Prop where
   pre_i : s.main.pre = true → s.i2o = .absent
